@@ -47,6 +47,34 @@ def chk_icao(c, note):
     return None
 
 
+_SPECIAL = []
+
+
+def special_addresses():
+    """addresses with a meaning of their own on either side of the uplink address encoding: boundary values and CRC constants, and the addresses
+    whose *modified* form (the high 24 bits of G(x)A(x), what is actually overlaid on the parity) is such a value"""
+    if not _SPECIAL:
+        vals = {0, 1, 0x800000, 0xFFFFFF, 0xFFF409, 0x7FFA04, 0x000FFF, 0xFFF000} | {1 << k for k in range(24)} | {crc24.remainder(1 << i, 56) for i in range(24, 56)}
+        out = set(vals)
+        for t in vals:
+            a = frames.affine_solve(lambda x, t=t: crc24.uplink_modified_address(x) ^ t, 24)
+            if a is not None:
+                out.add(a)
+        _SPECIAL.extend(sorted(out))
+    return _SPECIAL
+
+
+def enum_special(ctx):
+    idx = 0
+    for addr in special_addresses():
+        for n in (56, 112):
+            for j in range(3):
+                idx += 1
+                if ctx.mine(idx):
+                    rng = ctx.rng("special", addr, n, j)
+                    yield {"addr": addr, "n": n, "ctx_data": [0, 1, rng.getrandbits(n - 24)][j] if j < 2 else rng.getrandbits(n - 24), "hc": rng.choice("UL")}
+
+
 def enum_uf11(ctx):
     idx = 0
     for pr in range(16):
@@ -257,6 +285,8 @@ def first_jobs(rng):
 LEGS = [
     variants.first_use_leg(first_jobs),
     volume.leg(vol_step, 40000, 1200000, "40 000 (thorough: 1.2 million per process) distinct roll-call interrogations in one process; identical frames decoded again after 4100 ... 1 050 000 others; four concurrent callers at the end"),
+    Leg("special_addresses", chk_icao, enum=enum_special, exhaustive=True,
+        doc="addresses that are boundary values or CRC constants, and the addresses whose modified form G(x)A(x) is one, x both lengths x payloads 0 / 1 / random"),
     Leg("uplink_icao", chk_icao, strategy=s_icao, quick=20000, thorough=1500000, doc="address recovery through the uplink AP encoder"),
     Leg("uf11", chk_uf11, enum=enum_uf11, exhaustive=True, doc="PR x IC x CL"),
     Leg("rollcall", chk_rc, enum=enum_rc, exhaustive=False, doc="UF4/5/20/21 x RR x DI x SD"),
